@@ -303,6 +303,9 @@ def truth(it: Interp, v):
         return it.branch(v.t != 0)
     if isinstance(v, (int, float, Fraction)):
         return v != 0
+    if isinstance(v, ItemV):
+        it.opacity_events.append(f"line {it.cur_line}: truth value of an item")
+        return it.branch(L.truthy(v.t))
     if isinstance(v, (PList, PSet)):
         return len(v.elems) > 0
     if isinstance(v, tuple):
@@ -777,7 +780,9 @@ def extremum(it, args, kw, want_max):
         return elems[0]
     it.trust(f"builtin {name}: first extremal element" + (" (any extremal element for a set)" if unordered else ""))
     # numeric elements without key: return an ite-term instead of forking
-    if "key" not in kw and all((_is_conc_num(x) or _sym_num(x)) and not (isinstance(x, float)) for x in elems):
+    def _sortkind(x):
+        return "int" if isinstance(x, (bool, int)) or (isinstance(x, SV) and not L.is_real(x.t)) else "real"
+    if "key" not in kw and all((_is_conc_num(x) or _sym_num(x)) and not (isinstance(x, float)) for x in elems) and len({_sortkind(x) for x in elems}) == 1:
         if all(_is_conc_num(x) for x in elems):
             return (max if want_max else min)(elems)
         r = term_of(elems[0])
@@ -1117,8 +1122,16 @@ def bi_super(it, args, kw):
 
 def bi_round(it, args, kw):
     x = args[0]
-    if isinstance(x, (int,)):
+    nd = args[1] if len(args) > 1 else kw.get("ndigits")
+    if isinstance(x, int) or (isinstance(x, SV) and L.is_int(x.t) and (nd is None or (isinstance(nd, int) and nd >= 0))):
         return x
+    if isinstance(x, (SV, Fraction)) and (nd is None or isinstance(nd, int)):
+        it.trust("round(x, n): some value within half a unit of the n-th decimal of x")
+        t = term_of(x)
+        r = L.fresh("rounded", L.RealS if nd else L.IntS)
+        half = L.to_z3(Fraction(1, 2 * 10 ** (nd or 0)))
+        it.assume(z3.And((z3.ToReal(r) if L.is_int(r) else r) - t <= half, t - (z3.ToReal(r) if L.is_int(r) else r) <= half))
+        return SV(r)
     raise Unsupported("round()")
 
 
